@@ -18,8 +18,11 @@ CHECK = {
         {"fn": P + "vC45_sourceStep", "replay": "model-only", "cases": {"src": [0, 1]}},
         {"fn": P + "vC45_sinkStep", "replay": "model-only"},
         {"fn": P + "vC45_fusedStep", "replay": "model-only"},
-        {"fn": P + "vC45_batchStep", "replay": "model-only", "cover_optional": ("completion-deferred",)},
-        {"fn": P + "vC45_batchHistory", "replay": "model-only", "cases_quick": {"steps": [4]}, "cases_thorough": {"steps": [5]}, "cover_optional": ("completion-deferred", "two-elements-in-one-step")},
+        # deferred completion exists only once finding C45-1 is repaired (on the unrepaired tree that branch is unreachable)
+        {"fn": P + "vC45_batchStep", "replay": "model-only", "cover_optional": ("completion-deferred",),
+         "may_be_unreachable": ("the completion is held back only while elements wait for demand",)},
+        {"fn": P + "vC45_batchHistory", "replay": "model-only", "cases_quick": {"steps": [4]}, "cases_thorough": {"steps": [5]}, "cover_optional": ("completion-deferred", "two-elements-in-one-step"),
+         "may_be_unreachable": ("history: after upstream completed only missing demand delays the completion",)},
         {"fn": P + "vC45_parallelStep", "replay": "model-only", "cases": {"ordered": [0, 1]}, "cover_optional": ("resequenced-run", "held-back")},
     ],
     "opts": {"unwind": 8, "substitute": SUB},
